@@ -222,6 +222,34 @@ def looks_like(value: Any, path: tuple) -> str | None:
     return None
 
 
+# junk for KEYS that carry meaning (path templates, property / component names, status codes, media types)
+KEY_JUNK: list[tuple[str, Any]] = [
+    ("unclosed-long-placeholder", lambda k: str(k) + "/{path_relative_to_the_repository_root_without_end"),
+    ("placeholder-star", lambda k: str(k) + "/{path_relative_to_the_repository_root*}"),
+    ("placeholder-dotted", lambda k: str(k) + "/{user.id}"),
+    ("placeholder-empty", lambda k: str(k) + "/{}"),
+    ("placeholder-double", lambda k: str(k) + "/{{x}}"),
+    ("placeholder-adjacent", lambda k: str(k) + "/{x}{y}"),
+    ("placeholder-repeated", lambda k: str(k) + "/{x}/{x}"),
+    ("query-in-key", lambda k: str(k) + "?q=1#frag"),
+    ("dot-segments", lambda k: str(k) + "/../.."),
+    ("empty-key", lambda k: ""),
+    ("space-key", lambda k: " "),
+    ("long-key", lambda k: str(k) + "x" * 300),
+    ("unicode-key", lambda k: str(k) + "\u00e9\u4e2d\u0000"),
+    ("quote-key", lambda k: str(k) + "\"'\\\n"),
+    ("keyword-key", lambda k: "class"),
+    ("dunder-key", lambda k: "__init__"),
+    ("digit-key", lambda k: "123"),
+    ("status-range", lambda k: "2XX"),
+    ("status-default", lambda k: "default"),
+    ("status-huge", lambda k: "99999999999999999999"),
+    ("media-wild", lambda k: "*/*"),
+    ("media-params", lambda k: str(k) + "; a=b; c=\"d;e\""),
+    ("media-upper", lambda k: str(k).upper()),
+]
+KEYED_PARENTS = ("paths", "properties", "schemas", "responses", "content", "parameters", "requestBodies", "securitySchemes")
+
 CYCLES = ["schemas-mutual-allof", "schemas-mutual-items", "schemas-self-ref-alias", "bodies-cycle", "responses-chain", "parameters-chain", "schemas-ref-chain",
           "bodies-rho-self", "bodies-rho-two", "bodies-long-chain", "responses-rho", "parameters-rho", "schemas-rho-allof", "schemas-rho-items", "schemas-cycle-with-bad-piece"]
 
@@ -245,6 +273,9 @@ def faults_at(doc: Any, p: tuple) -> list[dict]:
     if kind == "schema":
         for j in ("array-no-items", "enum-mixed", "allof-self", "string-with-properties"):
             faults.append({"t": "tree", "op": "merge", "ptr": lp, "junk": f"schema:{j}"})
+    if len(p) >= 2 and isinstance(p[-1], str) and p[-2] in KEYED_PARENTS:
+        for name, _ in KEY_JUNK:
+            faults.append({"t": "tree", "op": "rename-key", "ptr": lp, "junk": name})
     return faults
 
 
@@ -335,6 +366,14 @@ def apply_tree_fault(doc: Any, f: dict) -> Any:
             parent[key], parent[j] = parent[j], parent[key]
     elif op == "replace":
         parent[key] = _junk_value(f["junk"], doc, path)
+    elif op == "rename-key":
+        if not isinstance(parent, dict):
+            raise FaultNotApplicable("rename-key on a list")
+        fn = dict(KEY_JUNK)[f["junk"]]
+        new_key = fn(key)
+        items = [(new_key if k == key else k, v) for k, v in parent.items()]  # keep the position in the map
+        parent.clear()
+        parent.update(items)
     elif op == "merge":
         if not isinstance(parent[key], dict):
             raise FaultNotApplicable("merge into non-dict")
@@ -456,7 +495,7 @@ def sample_tree_faults(doc: Any, r: random.Random, k: int) -> list[dict]:
                 if looks_like(get_at(doc, p), p) is not None:
                     break
             fl = faults_at(doc, p)
-            targeted = [f for f in fl if ":" in str(f.get("junk", "")) or f["op"] == "merge"]
+            targeted = [f for f in fl if ":" in str(f.get("junk", "")) or f["op"] in ("merge", "rename-key")]
             out.append(r.choice(targeted or fl))
         else:
             out.append(r.choice(faults_at(doc, r.choice(ptrs))))
